@@ -317,11 +317,7 @@ but no other interpretation is applied
                 #
                 args = args.replace(r'\"', r'%c' % 2)
                 #
-                # Special case cmd(..., " ") by protecting " " as "\001"
-                #
-                args = re.sub(r',\s*"(\s)"', r'\1"%c"' % 1, args)
-                #
-                # Replace " " within quoted strings with \1 too
+                # Replace " " within quoted strings with \1 (this takes care of cmd(..., " ") too)
                 #
                 args = re.sub(r"(\"[^\"]+\")", lambda s: re.sub(" ", "\1", s.group(0)), args)
                 #
